@@ -1,6 +1,7 @@
 (* C10 - Progressive merging never re-aligns a finished sub-alignment.
    Statements only; proofs are in WeaveProofs.v / AssemblyProofs.v. *)
 From KV Require Import Base Weave WeaveProofs WeaveCheck AssemblyProofs.
+From KV Require Pipeline CladeTasks TreeSchedule TreeAssembly TreePaths.
 Local Open Scope nat_scope.
 
 (* update_gaps (weave_alignment.c:117) is column insertion: for every gap vector, residue list
@@ -35,6 +36,22 @@ Theorem C10_finished_blocks_are_preserved : forall seqs tasks st act,
   strip_allgap (map (row_of seqs (run_from st tasks)) S) = strip_allgap (map (row_of seqs st) S).
 Proof. exact run_preserves_blocks. Qed.
 Print Assumptions C10_finished_blocks_are_preserved.
+
+(* The same with the premises about the run discharged: for EVERY guide tree (kalign's serial schedule of it) and EVERY
+   family of raw paths that are well-formed for the widths of the groups they join (TreePaths.build_tasks), stop the run
+   after any number of merges: every block of rows inside a group that is active at that moment comes out of the
+   finished run, stripped of its all-gap columns, exactly as it was.  (TreeSchedule/TreeAssembly/TreePaths.v) *)
+Theorem C10_blocks_preserved_for_every_guide_tree_and_wf_path : forall seqs,
+  Forall (Forall (fun c => c <> dash)) seqs ->
+  forall t, NoDup (CladeTasks.leaves t) -> (forall i, In i (CladeTasks.leaves t) <-> i < length seqs) ->
+  forall paths tasks,
+  TreePaths.build_tasks seqs (st0 seqs) (Pipeline.sort_tasks (Pipeline.tasks_of (fst (Pipeline.label t (length seqs))))) paths = Some tasks ->
+  forall t1 t2, tasks = (t1 ++ t2)%list ->
+  let mid := run_from (st0 seqs) t1 in
+  forall x S, In x (act_final (seq 0 (length seqs)) t1) -> incl S (members mid x) ->
+  strip_allgap (map (row_of seqs (run_from (st0 seqs) tasks)) S) = strip_allgap (map (row_of seqs mid) S).
+Proof. exact TreePaths.blocks_preserved_every_tree_every_wf_path. Qed.
+Print Assumptions C10_blocks_preserved_for_every_guide_tree_and_wf_path.
 
 (* Non-vacuity: a real run observed on the implementation (3 DNA sequences, two merges) satisfies
    the premises; the boolean validity check is the one proved sound in AssemblyProofs. *)
